@@ -47,6 +47,18 @@ impl RouteSegments {
             .count()
     }
 
+    /// Whether `self` and `another` are the same route, that is, the same
+    /// path in the routing tree: path params match by position, not by name
+    /// ( `/users/:id` and `/users/:user` are one route ).
+    pub(crate) fn is_same_route_as(&self, another: &Self) -> bool {
+        self.segments.len() == another.segments.len() &&
+        self.segments.iter().zip(another.segments.iter()).all(|(a, b)| match (a, b) {
+            (RouteSegment::Static(a), RouteSegment::Static(b)) => a == b,
+            (RouteSegment::Param(_),  RouteSegment::Param(_))  => true,
+            _ => false
+        })
+    }
+
     pub(crate) fn merged(self, another: Self) -> Self {
         let mut literal: Cow<'_, str> = Cow::Owned(format!(
             "{}/{}",
